@@ -317,7 +317,7 @@ class C15(Prop):
                     raise Violation("logaddexp-limit|array", f"logaddexp({x.tolist()}, {y.tolist()}) = {np.asarray(forms['array,array']).tolist()} exact {want.tolist()}")
                 # the limits themselves, in every operand form: both operands the unit -inf, one of them, large values
                 ninf = float("-inf")
-                for px, py in [(ninf, ninf), (ninf, 0.5), (0.5, ninf), (700.0, 700.0), (-745.0, ninf), (ninf, -1e308), (1e308, ninf)]:
+                for px, py in [(ninf, ninf), (ninf, 0.5), (0.5, ninf), (700.0, 700.0), (-745.0, ninf), (ninf, -1e308), (1e308, ninf), (-HUGE, ninf), (ninf, -HUGE), (-HUGE, -HUGE), (-HUGE, 0.5)]:
                     w_ = np.logaddexp(px, py)
                     for form, g in {"scalar,scalar": ops.logaddexp(px, py), "scalar,array": ops.logaddexp(px, np.asarray([py, py])), "array,scalar": ops.logaddexp(np.asarray([px, px]), py),
                                     "0d,0d": ops.logaddexp(np.asarray(px), np.asarray(py)), "array,array": ops.logaddexp(np.asarray([px, 0.25]), np.asarray([py, ninf]))}.items():
@@ -379,11 +379,28 @@ class C15(Prop):
             else:  # safe ops: never NaN on the callers' domain (finite or -inf minuend; zero / huge divisors)
                 name = case["safeop"]
                 op = getattr(ops, name)
-                minuend = np.asarray([LOG_EDGE[(a + i * b) % len(LOG_EDGE)] for i in range(n1)], dtype=float).reshape(s1)
+                import random
+
+                r_ = random.Random(a * 97 + b)
+                pool_ = LOG_EDGE + [-INF, -HUGE]
+                minuend = np.asarray([r_.choice(pool_) for i in range(n1)], dtype=float).reshape(s1)
                 lin = np.asarray([[0.0, 1.0, 0.5, 3.0, TINY, 1e300, 1e-300][(a + i * b) % 7] for i in range(n1)], dtype=float).reshape(s1)
                 if name == "safesub":
-                    sub_ = np.asarray([LOG_EDGE[(a + 2 + i * (b + 1)) % len(LOG_EDGE)] for i in range(n1)], dtype=float).reshape(s1)
-                    got = op(minuend, sub_)
+                    # every pairing of edge values occurs, in particular -inf - -inf; minuend as array, 0-d array or number
+                    sub_ = np.asarray([r_.choice(pool_) for i in range(n1)], dtype=float).reshape(s1)
+                    form_ = r_.choice(["array", "array", "number", "0d"])
+                    if form_ == "number":
+                        minuend = minuend.reshape(-1)[:1].reshape(())
+                        got = op(float(minuend), sub_)
+                    elif form_ == "0d":
+                        minuend = minuend.reshape(-1)[:1].reshape(())
+                        got = op(minuend, sub_)
+                    else:
+                        got = op(minuend, sub_)
+                    plain_ = np.asarray(minuend - sub_, dtype=float)
+                    fin_ = np.isfinite(plain_)
+                    if got is not None and fin_.any() and not np.allclose(np.broadcast_to(np.asarray(got, dtype=float), plain_.shape)[fin_], plain_[fin_], rtol=1e-12, atol=0):
+                        raise Violation("safe-op-value|safesub", f"safesub differs from plain subtraction where that is finite: {np.asarray(minuend).tolist()} - {sub_.tolist()} = {np.asarray(got).tolist()}")
                 elif name == "safediv":
                     div = np.asarray([[0.0, 1.0, 0.5, TINY, 1e300, 2.0][(a + 1 + i * (b + 2)) % 6] for i in range(n1)], dtype=float).reshape(s1)
                     got = op(lin, div)
